@@ -256,10 +256,22 @@ def run_case(case):
             B = [(a[0], a[1]) for a in atoms_b]
             if not C.finite([v for _, v in A], [v for _, v in B], [fa, fb]):
                 continue
-            un_a, un_b = nlp.match_multiset(A, B, scale=1.0 + max([abs(v) for _, v in A] + [0]), rtol=1e-9)
+            rt = 1e-9
+            if spec["method"]["cls"] == "SS":
+                # two differently rounded evaluations of one recursion: tolerance follows its sensitivity
+                from ..ref import model
+                ph_ = obs.rb(w)
+                if not C.phys_ok(ph_):
+                    continue
+                amp = model.RefModel(spec, ph_, None).amplification()
+                if amp > 1e5:
+                    res["counters"]["chaotic_points"] = res["counters"].get("chaotic_points", 0) + 1
+                    continue
+                rt = max(1e-9, 1e-13 * amp)
+            un_a, un_b = nlp.match_multiset(A, B, scale=1.0 + max([abs(v) for _, v in A] + [0]), rtol=rt)
             res["evals"] += 1
             res["counters"]["const_twin_compares"] += 1
-            if un_a or un_b or abs(fa - fb) > 1e-9 * (1 + abs(fa)):
+            if un_a or un_b or abs(fa - fb) > rt * (1 + abs(fa)):
                 res["violations"].append({
                     "kind": "differs-from-constant-twin", "mech": "C09|differs-from-constant-twin",
                     "detail": "f %.12g vs %.12g; %d row slacks of the parametric NLP and %d of the constant NLP "
